@@ -45,6 +45,8 @@ PoolSets ==
      {Filter(pa, <<NumL(k)>>, <<>>) : k \in 1 .. 3,
           pa \in {Path(TRUE, <<DosN, Step("child", NTName("a"), <<>>)>>), Path(FALSE, <<Step("child", NTAny, <<>>), Step("child", NTAny, <<>>)>>),
                   R1("child", NTAny), R1("descendant", NTAny)}}
+     \cup {Path(FALSE, <<Step(hax, NTAny, <<Filter(pa, <<NumL(k)>>, <<>>)>>)>>) :      \* (path)[n] as a predicate: once per candidate
+            hax \in {"child", "descendant"}, k \in 1 .. 2, pa \in {R1("child", NTAny), R1("descendant", NTName("a"))}}
      \cup {Filter(pa, <<p>>, <<>>) : p \in {R1("child", NTAny), Call("not", <<R1("child", NTAny)>>)},
           pa \in {Path(FALSE, <<Step("child", NTAny, <<>>), Step("child", NTAny, <<>>)>>), R1("descendant", NTAny)}} >>
 
